@@ -554,3 +554,215 @@ func c10BreakUnderLoad(c *ev.Ctx) {
 		runtime.KeepAlive(c2)
 	}
 }
+
+// halfConn writes, once armed, only the first bytes of the next Write, waits,
+// and reports an error: a send that fails half way through a frame.
+type halfWriteConn struct {
+	net.Conn
+	mu      sync.Mutex
+	armed   bool
+	parked  chan struct{}
+	release chan struct{}
+}
+
+func (h *halfWriteConn) arm() {
+	h.mu.Lock()
+	h.armed, h.parked, h.release = true, make(chan struct{}), make(chan struct{})
+	h.mu.Unlock()
+}
+
+func (h *halfWriteConn) Write(b []byte) (int, error) {
+	h.mu.Lock()
+	fire := h.armed
+	h.armed = false
+	parked, release := h.parked, h.release
+	h.mu.Unlock()
+	if !fire {
+		return h.Conn.Write(b)
+	}
+	n, _ := h.Conn.Write(b[:len(b)/2])
+	close(parked)
+	<-release
+	return n, errors.New("injected: write failed half way")
+}
+
+// (7c) a send fails half way through a frame while other calls are already
+// queued behind it (registered, waiting for their turn to send). Whatever they
+// would write now lands behind half a frame; the peer takes it for the rest of
+// that frame and waits for more. The connection is broken for them too: every
+// one of them returns an error - none writes, none waits for a reply that
+// cannot come.
+func c10SendFailsQueuedCalls(c *ev.Ctx) {
+	for round := 0; round < c.Sz(8, 60); round++ {
+		if !c.Mine(round + 3) {
+			continue
+		}
+		c.Begin(fmt.Sprintf("C10 send fails, calls queued behind it, round %d", round))
+		fs := fakesrv.New(nil)
+		fs.Handler = fakesrv.Auto(0, 7)
+		hc := &halfWriteConn{Conn: fs.C}
+		var cl *p9.Client
+		var root p9.File
+		var files []p9.File
+		var fids []uint64
+		var err error
+		ok := ev.Watch(wd, func() {
+			if cl, err = p9.NewClient(hc, p9.WithMessageSize(1<<16)); err != nil {
+				return
+			}
+			if root, err = cl.Attach(""); err != nil {
+				return
+			}
+			for i := 0; i < 4; i++ {
+				var f p9.File
+				if _, f, err = root.Walk([]string{fmt.Sprintf("f%d", i)}); err != nil {
+					return
+				}
+				files = append(files, f)
+				fids = append(fids, lastNewfid(fs))
+			}
+		})
+		if !ok || err != nil {
+			c.Inconclusive(fmt.Sprintf("C10 queued-calls setup: %v", err))
+			fs.Shutdown()
+			continue
+		}
+		cc := &c10Client{fs: fs, cl: cl, root: root, files: files, fids: fids}
+		hc.arm()
+		resA := make(chan string, 1)
+		go func() { resA <- cc.do(0, c10call{kind: 'G'}) }()
+		<-hc.parked
+		nq := 1 + round%3
+		resQ := make(chan string, nq)
+		for q := 0; q < nq; q++ {
+			go func(q int) { resQ <- cc.do(1+q, c10call{kind: 'G', off: uint64(q)}) }(q)
+		}
+		quiesce.WaitUntil(func() bool { return false }, wd) // they are registered and wait for their turn
+		close(hc.release)
+		got := []string{}
+		if o, d := quiesce.WaitUntil(func() bool { return len(resA) > 0 && len(resQ) == nq }, wd); o != quiesce.CondMet {
+			hang(c, o, d, "C10:send-fails:call-queued-behind-the-failed-send-hangs", map[string]any{"queued": nq, "returned": len(resQ)})
+			fs.Shutdown()
+			continue
+		}
+		got = append(got, <-resA)
+		for q := 0; q < nq; q++ {
+			got = append(got, <-resQ)
+		}
+		for i, s := range got {
+			if !strings.HasPrefix(s, "error:") {
+				c.Violation("C10:send-fails:call-proceeds-on-the-broken-connection", map[string]any{"call": i, "result": s})
+				break
+			}
+		}
+		c.Case(fmt.Sprintf("send-fails-queued:%d", nq), true)
+		c.Count("send_fails_queued_rounds", 1)
+		fs.Shutdown()
+		runtime.KeepAlive(cc)
+	}
+}
+
+// (7d) the reply to a request arrives at the very moment its caller withdraws
+// it (its send has just reported an error although the frame was delivered):
+// the receiver has taken the request out of the pending table but not yet
+// handed the reply over; the caller finds nothing to withdraw, returns, and its
+// response object goes back to the process-wide pool - where the receiver then
+// completes it. The next call that draws the object, on ANY Client, must not
+// find a completion in it: it would return at once, "successfully", with a
+// reply nobody sent. The window is a few instructions wide; the verifPoint
+// hook "client:handleOne:before-deliver" holds the receiver in it.
+func c10StaleCompletion(c *ev.Ctx) {
+	defer runtime.GOMAXPROCS(runtime.GOMAXPROCS(1)) // one P: the pool hands the object to the next caller
+	for round := 0; round < c.Sz(3, 20); round++ {
+		if !c.Mine(round + 5) {
+			continue
+		}
+		c.Begin(fmt.Sprintf("C10 stale completion round %d", round))
+		// client 2 first: healthy, its server answers nothing after the setup
+		c2 := c10Setup(c, 1, fakesrv.Auto(0, 7))
+		if c2 == nil {
+			continue
+		}
+		c2.fs.Handler = func(s *fakesrv.Server, rq *fakesrv.Req) {}
+		fs := fakesrv.New(nil)
+		auto := fakesrv.Auto(0, 7)
+		fs.Handler = auto
+		fc := &failAfterConn{Conn: fs.C}
+		var cl *p9.Client
+		var root p9.File
+		var files []p9.File
+		var fids []uint64
+		var err error
+		ok := ev.Watch(wd, func() {
+			if cl, err = p9.NewClient(fc, p9.WithMessageSize(1<<16)); err != nil {
+				return
+			}
+			if root, err = cl.Attach(""); err != nil {
+				return
+			}
+			for i := 0; i < 2; i++ {
+				var f p9.File
+				if _, f, err = root.Walk([]string{fmt.Sprintf("f%d", i)}); err != nil {
+					return
+				}
+				files = append(files, f)
+				fids = append(fids, lastNewfid(fs))
+			}
+		})
+		if !ok || err != nil {
+			c.Inconclusive(fmt.Sprintf("C10 stale-completion setup: %v", err))
+			fs.Shutdown()
+			c2.fs.Shutdown()
+			continue
+		}
+		cc := &c10Client{fs: fs, cl: cl, root: root, files: files, fids: fids}
+		fs.Handler = func(s *fakesrv.Server, rq *fakesrv.Req) {
+			if rq.Err == nil && rq.Msg.Type == wire.Tgetattr && rq.Msg.F[0].(uint64) == fids[0] {
+				return // B: held back
+			}
+			auto(s, rq)
+		}
+		atPoint, resume := make(chan struct{}), make(chan struct{})
+		var once sync.Once
+		p9.VerifSetPoint(func(name string) {
+			if name == "client:handleOne:before-deliver" {
+				once.Do(func() { close(atPoint); <-resume })
+			}
+		})
+		resB := make(chan string, 1)
+		n0 := fs.NReqs()
+		go func() { resB <- cc.do(0, c10call{kind: 'G'}) }()
+		fs.WaitReqs(n0 + 1)
+		quiesce.WaitUntil(func() bool { return false }, wd)
+		fc.arm()
+		resA := make(chan string, 1)
+		go func() { resA <- cc.do(1, c10call{kind: 'G'}) }()
+		<-fc.parked
+		reached := false
+		if o, _ := quiesce.Await(atPoint, wd); o == quiesce.CondMet {
+			reached = true
+		}
+		close(fc.release) // A's Write reports its error; A withdraws and returns
+		quiesce.WaitUntil(func() bool { return len(resA) > 0 }, wd)
+		if reached {
+			close(resume) // the receiver completes what it had taken out
+		}
+		p9.VerifSetPoint(nil)
+		quiesce.WaitUntil(func() bool { return false }, wd)
+		// the next call in the process: client 2, whose server stays silent
+		res2 := make(chan string, 1)
+		go func() { res2 <- c2.do(0, c10call{kind: 'G'}) }()
+		quiesce.WaitUntil(func() bool { return len(res2) > 0 }, wd)
+		if len(res2) > 0 {
+			if s := <-res2; !strings.HasPrefix(s, "error:") {
+				c.Violation("C10:stale-completion:call-returns-although-its-server-never-replied", map[string]any{"result": s, "hook_reached": reached})
+			}
+		}
+		c.Case("stale-completion", reached)
+		c.Count("stale_completion_rounds", 1)
+		fs.Shutdown()
+		c2.fs.Shutdown()
+		runtime.KeepAlive(cc)
+		runtime.KeepAlive(c2)
+	}
+}
